@@ -266,6 +266,30 @@ def bgsave_schedules(ctx):
             s.close(c)
             c = restart_and_dump(ctx, srv, s, tr, dbs=(0,))
             cases += 1
+        # a second BGSAVE while one is under way: refused (or queued) without disturbing the first, whose dump is what is found
+        for cid in list(s.clients):
+            s.close(cid)
+        tr.emit({'k': 'reset'})
+        s.note('bgsave/bgsave-while-bgsave')
+        c = s.open()
+        s.cmd(c, [b'FLUSHALL'])
+        for a in small_dataset():
+            s.cmd(c, a)
+        srv.ctl.cmd('ARM rdb_after_get')
+        tr.emit({'k': 'bgstart'})
+        s.cmd(c, [b'BGSAVE'])
+        if srv.ctl.cmd('WAIT rdb_after_get 1 3000') == '1':
+            forced += 1
+        r2 = s.clients[c].call([b'BGSAVE'], 10.0)
+        tr.emit({'k': 'hostile', 'argv': [list(b'BGSAVE')], 'r': __import__('resp').to_json(r2)})
+        s.cmd(c, B('SET', 'during', 'x'))
+        srv.ctl.cmd('DISARM rdb_after_get')
+        done = wait_bgsave(srv)
+        tr.emit({'k': 'chk', 'name': 'bgsave_finished', 'ok': 1 if done else 0})
+        tr.emit({'k': 'bgdone'})
+        s.close(c)
+        c = restart_and_dump(ctx, srv, s, tr)
+        cases += 1
         # SAVE racing a parked BGSAVE (both use the same temporary file name)
         for cid in list(s.clients):
             s.close(cid)
